@@ -384,8 +384,13 @@ void HttpMessage::readBody()
 
 		if (chunked)
 		{
-			if (_socket->read(buffer, 2) < 2) // skip crlf
+			if (_socket->read(buffer, 2) < 2) // the CRLF that ends the chunk (after the last chunk: the empty trailer)
 				break;
+			if (buffer[0] != '\r' || buffer[1] != '\n') // anything else (also trailer fields, which are not supported): the framing is lost
+			{
+				_socket->close();
+				return;
+			}
 		}
 	}
 	//printf("readbody end\n");
